@@ -50,8 +50,9 @@ def contract_random_histories(consts, num, seed):
     return paths, r
 
 
-def walk_chains(inst_kw, paths, procs=16):
-    """Run each history on its own store with ONE instance; returns the forest root."""
+def walk_chains(inst_kw, paths, procs=16, per_path_inst=None):
+    """Run each history on its own store with ONE instance; returns the forest root.
+    per_path_inst: optional list of Inst kwargs, one per history (adversarial identifiers)."""
     base = os.path.join(tlc.scratch_root(), "chains")
     shutil.rmtree(base, ignore_errors=True)
     os.makedirs(base)
@@ -64,9 +65,10 @@ def walk_chains(inst_kw, paths, procs=16):
     rootrec = {"call": {"op": "init", "pid": "-", "c": "-", "val": "-", "fmt": "-", "ver": "-"},
                "res": {"cls": "ok", "cid": "-", "data": "-", "truth": True},
                "post": d0.abstract(), "kids": []}
-    jobs = [(inst_kw, paths, [], [k], base, None) for k in range(len(paths))]
+    jobs = [((per_path_inst[k] if per_path_inst else inst_kw), paths, [], [k], base, None)
+            for k in range(len(paths))]
     with multiprocessing.get_context("fork").Pool(min(procs, len(jobs))) as pool:
-        results = pool.map(_worker, jobs)
+        results = pool.map(_worker, jobs, chunksize=1)
     for res in results:
         for sidx, first, rootfan in res:
             if first is not None:
@@ -81,9 +83,72 @@ def _restore(snap, root):
     shutil.copytree(snap, root)
 
 
+_ALLOWED = None
+
+
+def _conforming(rel):
+    """Is a path (relative to the store root) at a location derived from hashes only?"""
+    import re
+    global _ALLOWED
+    if _ALLOWED is None:
+        hx = r"[0-9a-f]+"
+        _ALLOWED = re.compile(
+            r"^(hashstore\.yaml|(objects|metadata|refs/pids|refs/cids)(/%s)*(/%s(_delete)+)?"
+            r"|(objects|metadata|refs)/tmp(/tmp[A-Za-z0-9_]+)?|refs|objects|metadata)$" % (hx, hx))
+    return bool(_ALLOWED.match(rel))
+
+
+def _contained_call(d, call):
+    """Run the call with the interposer watching the WHOLE file system: count mutating
+    operations outside the store root or at non-hash-derived locations inside it."""
+    from . import interpose
+    import threading
+    ctx = interpose.Context("/")
+    ctx.root = ""
+    ctx.under = lambda p, _u=interpose.Context.under: _norm(p)
+    owner = threading.get_ident()
+    ctx.intercepts = lambda: threading.get_ident() == owner
+    ctx.keep_log = False
+    ctx.after_paths = True
+    bad = []
+    mut = {"rename", "replace", "remove", "unlink", "mkdir", "rmdir", "create", "open:w",
+           "open:a", "open:rw", "truncate", "link", "symlink", "chmod"}
+    root = os.path.realpath(d.root)
+
+    def after(op, token, n, out, paths=()):
+        if op not in mut:
+            return
+        for p in paths:
+            if p == root or p.startswith(root + os.sep):
+                rel = p[len(root) + 1:]
+                if rel and not _conforming(rel):
+                    bad.append((op, rel[:80]))
+            else:
+                bad.append((op, p[:80]))
+    ctx.after = after
+    with interpose.active(ctx):
+        r = d.call(call)
+    r["escape"] = len(bad)
+    if bad:
+        r["escapes"] = bad[:3]
+    return r
+
+
+def _norm(p):
+    try:
+        p = os.fspath(p)
+    except TypeError:
+        return None
+    if isinstance(p, bytes):
+        p = os.fsdecode(p)
+    if not os.path.isabs(p):
+        p = os.path.join(os.getcwd(), p)
+    return os.path.normpath(p)
+
+
 def _step(d, call, want_fs):
     before = absfn.snapshot(d.root) if want_fs else None
-    r = d.call(call)
+    r = _contained_call(d, call) if getattr(d, "contain", False) else d.call(call)
     if want_fs:
         r["fs"] = absfn.fs_diff(before, absfn.snapshot(d.root))
     if d.notes:
@@ -100,6 +165,7 @@ def walk_state(inst, inputs, base, path, calls, fhs, sidx, fan_filter=None):
     shutil.rmtree(snap, ignore_errors=True)
     os.makedirs(root)
     d = Driver(inst, root, inputs, fhs)
+    d.contain = getattr(inst, "contain", False)
     first = None
     node = None
     cur = d.abstract()
@@ -135,7 +201,10 @@ def walk_state(inst, inputs, base, path, calls, fhs, sidx, fan_filter=None):
 def _worker(args):
     (inst_kw, paths, calls, idxs, base, fan_mod) = args
     fhs, _ = load_hashstore()
+    contain = bool(inst_kw.get("_contain"))
+    inst_kw = {k: v for k, v in inst_kw.items() if k != "_contain"}
     inst = Inst(**inst_kw)
+    inst.contain = contain
     inputs = write_inputs(inst, os.path.join(base, "inputs.%d" % os.getpid()))
     out = []
     for sidx in idxs:
